@@ -48,3 +48,19 @@ Example C05_example :
   nkeep (SelD (6#5)) 2 [Fin 0; Fin 1; Fin 1; Fin (5#2); PInf; NaN] = 3%nat.
 Proof. split; [|reflexivity]. split; [|repeat constructor].
   simpl. repeat split; repeat constructor; simpl; auto; try (unfold Qle; simpl; lia). Qed.
+
+(* ---- sources without any fitted point (n_data = 0, limits only; Fitter.fit produces them): chi2 / 0 is modelled as numpy
+   evaluates it (Keep0.xdiv0: +inf, nan or -inf), not as Coq's total division.  The per-point selectors then keep nothing,
+   the others do not depend on n_data. *)
+From SedV Require Import Keep0.
+Theorem C05_nd0_E : forall v chi, Forall xnonneg chi -> nkeepN (SelE v) 0 chi = 0%nat.
+Proof. exact nd0_E. Qed.
+Theorem C05_nd0_F : forall v chi, ranked chi -> nkeepN (SelF v) 0 chi = 0%nat.
+Proof. exact nd0_F. Qed.
+Theorem C05_nd_irrelevant : forall s p chi, match s with SelE _ | SelF _ => True | _ => nkeepN s 0 chi = nkeep s p chi end.
+Proof. exact nd0_others. Qed.
+Theorem C05_nd_pos : forall s p chi, nkeepN s (Npos p) chi = nkeep s p chi.
+Proof. exact ndpos. Qed.
+Example C05_nd0_example : nkeepN (SelE 2) 0 [Fin 0; Fin (3#10); PInf; NaN] = 0%nat /\ nkeepN (SelC 2) 0 [Fin 0; Fin (3#10); PInf; NaN] = 2%nat
+  /\ Forall xnonneg [Fin 0; Fin (3#10); PInf; NaN] /\ ranked [Fin 0; Fin (3#10); PInf; NaN].
+Proof. vm_compute. repeat split; try reflexivity; try discriminate; repeat constructor; try discriminate. Qed.
